@@ -203,6 +203,13 @@ def judge(sh: Shard, mw, label, suspend, regime, exited):
             inside = [o for o in api if o["api"] == "async_reset" and rec["seq0"] < o["seq0"] < rec["seq1"]]
             if not inside:
                 sh.violation("C08:I5:set-spa-info-without-reset", f"async_set_spa_info{tuple(rec['args'])} called in state {rec['before']['state']} returned without resetting the manager", dict(wbase, call=[round(rec["t0"], 2), round(rec["t1"], 2)]))
+        if rec["api"] == "reconnect_button" and rec["t1"] is not None and rec["exc"] is None:
+            # the reconnect button the manager hands to the client is the user reset under another name
+            sh.count("reconnect_button_presses_returned")
+            sh.see("reconnect_button_from_states", rec["before"]["state"])
+            inside = [o for o in api if o["api"] == "async_reset" and rec["seq0"] < o["seq0"] < rec["seq1"]]
+            if not inside:
+                sh.violation("C08:I5:button-without-reset", f"the reconnect button pressed in state {rec['before']['state']} returned without resetting the manager", dict(wbase, call=[round(rec["t0"], 2), round(rec["t1"], 2)]))
     # ---- I6: status sensor mirrors state
     for i, e in enumerate(ev):
         if e["sensor"] is not None and e["sensor"] != to_string(e["state"]):
@@ -243,10 +250,28 @@ def judge(sh: Shard, mw, label, suspend, regime, exited):
         sh.see("events_seen", e["event"])
 
 
+async def press_button(man, mw, sh):
+    """Press the manager's own reconnect button (falls back to async_reset while there is none yet)."""
+    b = man.reconnect_button
+    if b is None:
+        return await man.async_reset()
+    rec = {"api": "reconnect_button", "t0": mw.w.now, "seq0": mw.next_seq(), "before": man._sample(), "t1": None, "exc": None}
+    mw.api.append(rec)
+    sh.count("reconnect_button_presses")
+    try:
+        return await b.async_press()
+    except BaseException as e:
+        rec["exc"] = type(e).__name__
+        raise
+    finally:
+        rec["t1"] = mw.w.now
+        rec["seq1"] = mw.next_seq()
+
+
 def gen_script(r, tier):
     from vlib.man import Phase
 
-    kind = r.choice(["plain", "plain", "outage", "rferr", "lossy-handshake", "absent", "wrong-id", "resets", "resets", "endpoint-raise", "long", "handler-raise", "handler-raise", "rferr-long", "reset-at-step", "reset-at-step"])
+    kind = r.choice(["plain", "plain", "outage", "rferr", "lossy-handshake", "absent", "wrong-id", "resets", "resets", "endpoint-raise", "long", "handler-raise", "handler-raise", "rferr-long", "reset-at-step", "reset-at-step", "button-in-flight"])
     phases, actions = [], []
     ident = None
     ep_fault = None
@@ -267,7 +292,11 @@ def gen_script(r, tier):
         phases = [Phase("healthy", r.choice([20, 60, 140]))]
         n = r.choice([1, 2, 4])
         for _ in range(n):
-            actions.append((r.choice([r.uniform(0, 6), r.uniform(0, phases[0].dur)]), r.choice(["reset", "reset", "set-info", "clear-info"])))
+            actions.append((r.choice([r.uniform(0, 6), r.uniform(0, phases[0].dur)]), r.choice(["reset", "button", "set-info", "clear-info"])))
+    elif kind == "button-in-flight":
+        # connected, reset, and the button pressed while the manager is locating / connecting again
+        phases = [Phase("healthy", 40)]
+        actions = [(12.0, "reset")] + [(12.0 + d_, "button") for d_ in sorted(r.sample([0.3, 0.8, 1.5, 2.5, 3.5, 5.0], r.choice([1, 2, 3])))]
     elif kind == "reset-at-step":
         # a user reset right after the k-th callback scheduled since the context was entered
         phases = [Phase("healthy", r.choice([10, 25]))]
@@ -342,6 +371,8 @@ def scenario(sh: Shard, seed, idx, tier):
                             _, act = pending.pop(0)
                             if act == "reset":
                                 users.append(asyncio.ensure_future(man.async_reset()))
+                            elif act == "button":
+                                users.append(asyncio.ensure_future(press_button(man, mw, sh)))
                             elif act == "clear-info":
                                 # "forget this spa" (what the sample console's clear command does)
                                 users.append(asyncio.ensure_future(man.async_set_spa_info(None, None, None)))
@@ -409,6 +440,7 @@ def main(tier, seed):
     run.extra["distinct_abstract_states"] = len(run.sets.get("abstract_states", set()))
     run.need(run.counters.get("rf_error_escalations_due", 0) >= 1, "no connection saw more RF errors than the escalation limit")
     run.need(run.counters.get("client_handler_failures", 0) >= 5, "too few client handler failures inside locate/connect phases were injected")
+    run.need(run.counters.get("reconnect_button_presses_returned", 0) >= 10 and len(run.sets.get("reconnect_button_from_states", ())) >= 3, "the reconnect button was hardly pressed / from too few states")
     run.need(run.counters.get("set_spa_info_calls_returned", 0) >= 10 and run.counters.get("spa_details_cleared", 0) >= 3, "set-spa-info calls / clearing of the spa details hardly exercised")
     return run.finish(
         rule="scenarios of the real manager against the real simulator: plain connects, outages while connected, RF-error periods, lossy handshakes (retry exhaustion), absent spa, wrong identifier, user resets / set-spa-info at drawn instants (incl. mid-handshake), endpoint creation raising, long mixed scripts; client handlers that never suspend / suspend one tick / seconds / mixed; regimes B/J/H; one evaluation = one scenario trace judged by I1-I7; distinct = distinct scenario traces; coverage of (state,event) pairs and abstract states is reported",
